@@ -385,6 +385,18 @@ def main(argv):
         if st == 0:
             c.violation("warc_parallel-truncated-input-accepted: %s exits 0 (%d output bytes); a stream cut inside a record must be an error" % (how, len(so)),
                         {"op": "warc_parallel", "how": how, "input_hex": data_in.hex(), "status": st, "stdout_len": len(so)})
+    # several inputs, only one of them truncated
+    good_in = os.path.join(work, "good.warc")
+    open(good_in, "wb").write(b"".join(make_records(12, 500)))
+    for k in (len(full) - 2, len(two[0]) + 7):
+        bad_in = os.path.join(work, "bad%d.warc" % k)
+        open(bad_in, "wb").write(full[:k])
+        for order in ([good_in, bad_in], [bad_in, good_in]):
+            st, so, se = run_tool([repo_bin("warc_parallel"), "-j", "3", "-i"] + order + ["--", "cat"], stdin=b"", timeout=25)
+            c.count(("truncated-one-of-two", k, order[0] == good_in), bucket="warc_parallel/truncated-input/one-of-two-files")
+            if st == 0:
+                c.violation("warc_parallel-truncated-input-accepted: one of two -i files is cut after %d bytes, the tool exits 0" % k,
+                            {"op": "warc_parallel", "how": "warc_parallel -j 3 -i good.warc <first %d bytes of a 2-record stream> -- cat" % k, "status": st})
     # .warc.gz files whose first member ends around a refill boundary, through the tool
     for x in [y for y in cases if y["bucket"].startswith("valid/gz/member-ends-at-refill-boundary")][::4]:
         nm = os.path.join(work, "boundary.warc.gz")
